@@ -185,6 +185,57 @@ Fixpoint words (cur : str) (s : str) : list str :=
   end.
 Definition join_sp (l : list str) : str := concat (map (fun s => s ++ [SP]) l).
 
+(* f (k + j) x for the j-th element x *)
+Fixpoint all_idx {A} (f : nat -> A -> bool) (k : nat) (l : list A) : bool :=
+  match l with [] => true | x :: r => f k x && all_idx f (S k) r end.
+
+Definition name_cell (c : cfg) (r : str * list Z * Z) : str := vis (c_col c) (wrap (c_col c) col_Yellow (r_name r)).
+
+(* heatmap: one cell per displayed column in every displayed row (key, at least one blank, then
+   exactly cc non-blank-led runes); the notes count what is not shown *)
+Definition heat_row_chk (c : cfg) (cc : nat) (lines : list str) (k : nat) (r : str * list Z * Z) : bool :=
+  match prefix_drop (name_cell c r) (nth (2 + k) lines []) with
+  | Some rest_line =>
+      match rest_line with
+      | x :: _ => (x =? SP)%N && Nat.eqb (length (drop_sp rest_line)) cc
+      | [] => false
+      end
+  | None => false
+  end.
+Definition heat_chk (c : cfg) (rlim clim : nat) (a : agg) (lines : list str) : bool :=
+  let cc := Nat.min (length (a_cols a)) clim in
+  let rc := Nat.min (length (a_rows a)) rlim in
+  all_idx (heat_row_chk c cc lines) 0 (firstn rc (a_rows a)) &&
+  (if (rc <? length (a_rows a))%nat
+   then str_eqb (nth (2 + rc) lines []) (more_txt (lenZ (a_rows a) - Z.of_nat rc)) else true) &&
+  (if (cc <? length (a_cols a))%nat
+   then ends_with (nth 1 lines []) (SP :: more_txt (lenZ (a_cols a) - Z.of_nat cc)) else true).
+
+(* sparkline: the number of sparkline runes on a row is what the key and the First/Last numbers
+   contribute plus one per displayed column *)
+Definition spark_alpha (c : cfg) : list N := if c_uni c then sparkBlocks else sparkAscii.
+Definition spark_row_chk (c : cfg) (k : nat) (lines : list str) (j : nat) (r : str * list Z * Z) : bool :=
+  let vals := last_cols k (r_vals r) in
+  let vf := match vals with [] => [] | v :: _ => fmt_of (c_fk c) v end in
+  let vl := match vals with [] => [] | _ => fmt_of (c_fk c) (last vals 0) end in
+  Nat.eqb (count_in (spark_alpha c) (nth (S j) lines []))
+          (count_in (spark_alpha c) (name_cell c r) + count_in (spark_alpha c) vf + count_in (spark_alpha c) vl + k).
+Definition spark_chk (c : cfg) (rlim clim : nat) (a : agg) (lines : list str) : bool :=
+  let k := Nat.min clim (length (a_cols a)) in
+  let rc := Nat.min (length (a_rows a)) rlim in
+  all_idx (spark_row_chk c k lines) 0 (firstn rc (a_rows a)) &&
+  (if (rc <? length (a_rows a))%nat
+   then existsb (fun l => str_eqb l (more_txt (lenZ (a_rows a) - Z.of_nat rc))) lines else true).
+
+(* data table: the displayed numbers are the aggregated numbers under the formatter, in column order *)
+Definition data_row_words (c : cfg) (k : nat) (rt : bool) (r : str * list Z * Z) : list str :=
+  let f := fmt_of (c_fk c) in
+  words [] (name_cell c r ++ [SP] ++ join_sp (map f (firstn k (r_vals r))) ++ (if rt then f (r_sum r) else [])).
+Definition data_row_chk (c : cfg) (k : nat) (rt : bool) (lines : list str) (j : nat) (r : str * list Z * Z) : bool :=
+  Sl_eqb (words [] (nth (S j) lines [])) (data_row_words c k rt r).
+Definition data_chk (c : cfg) (ncols nrows : nat) (rt : bool) (a : agg) (lines : list str) : bool :=
+  all_idx (data_row_chk c (Nat.min ncols (length (a_cols a))) rt lines) 0 (firstn nrows (a_rows a)).
+
 Definition check (i : cin) (o : obs) : bool :=
   match i, o with
   | IScale _ mn mx vs, OQ l => forallb q01 l && asc Qle_bool l && Nat.eqb (length l) (length vs)
@@ -197,8 +248,8 @@ Definition check (i : cin) (o : obs) : bool :=
       zip_all (fun u s => negb (q01 u) || (lenZ s <=? len)) us l &&
       (negb (forallb q01 us) || asc (fun a b => (length a <=? length b)%nat) l)
   | IStack col _ maxVal maxLen vals, OS [s] =>
-      (* never wider than the bar when the maximum bounds the total (as BarGraph guarantees) *)
-      negb (zsum vals <=? maxVal) || (maxLen <? 0) || (str_len col s <=? maxLen)
+      (* never wider than the bar, whatever the values and the maximum *)
+      (maxLen <? 0) || (str_len col s <=? maxLen)
   | IHeatC col _ us, OS l => Nat.eqb (length l) (length us) && forallb (fun s => str_len col s =? 1) l
   | ISparkC _ us, OS l => Nat.eqb (length l) (length us) && forallb (fun s => lenZ s =? 1) l
   | ITable col maxc maxr ops, OS lines =>
@@ -206,69 +257,11 @@ Definition check (i : cin) (o : obs) : bool :=
   | IHisto _ _ _ _, OS _ => true
   | IBarG _ _ _ _ _, OS _ => true
   | IHeat c rlim clim aggs, OS lines =>
-      match last_agg aggs with
-      | None => true
-      | Some a =>
-          let cc := Nat.min (length (a_cols a)) clim in
-          let rc := Nat.min (length (a_rows a)) rlim in
-          (* one cell per displayed column in every displayed row *)
-          (fix rows (k : nat) (rs : list (str * list Z * Z)) : bool :=
-             match rs with
-             | [] => true
-             | r :: rest =>
-                 match prefix_drop (vis (c_col c) (wrap (c_col c) col_Yellow (r_name r))) (nth (2 + k) lines []) with
-                 | Some rest_line =>
-                     match rest_line with
-                     | x :: _ => (x =? SP)%N && Nat.eqb (length (drop_sp rest_line)) cc
-                     | [] => false
-                     end
-                 | None => false
-                 end && rows (S k) rest
-             end) 0%nat (firstn rc (a_rows a)) &&
-          (* the notes count what is not shown *)
-          (if (rc <? length (a_rows a))%nat
-           then str_eqb (nth (2 + rc) lines []) (more_txt (lenZ (a_rows a) - Z.of_nat rc)) else true) &&
-          (if (cc <? length (a_cols a))%nat
-           then ends_with (nth 1 lines []) (SP :: more_txt (lenZ (a_cols a) - Z.of_nat cc)) else true)
-      end
+      match last_agg aggs with None => true | Some a => heat_chk c rlim clim a lines end
   | ISpark c rlim clim aggs, OS lines =>
-      match last_agg aggs with
-      | None => true
-      | Some a =>
-          let k := Nat.min clim (length (a_cols a)) in
-          let rc := Nat.min (length (a_rows a)) rlim in
-          let al := if c_uni c then sparkBlocks else sparkAscii in
-          (fix rows (j : nat) (rs : list (str * list Z * Z)) : bool :=
-             match rs with
-             | [] => true
-             | r :: rest =>
-                 let vals := last_cols k (r_vals r) in
-                 let vf := match vals with [] => [] | v :: _ => fmt_of (c_fk c) v end in
-                 let vl := match vals with [] => [] | _ => fmt_of (c_fk c) (last vals 0) end in
-                 Nat.eqb (count_in al (nth (S j) lines []))
-                         (count_in al (vis (c_col c) (wrap (c_col c) col_Yellow (r_name r))) + count_in al vf + count_in al vl + k)
-                 && rows (S j) rest
-             end) 0%nat (firstn rc (a_rows a)) &&
-          (if (rc <? length (a_rows a))%nat
-           then existsb (fun l => str_eqb l (more_txt (lenZ (a_rows a) - Z.of_nat rc))) lines else true)
-      end
+      match last_agg aggs with None => true | Some a => spark_chk c rlim clim a lines end
   | IData c ncols nrows rt ct aggs, OS lines =>
-      match last_agg aggs with
-      | None => true
-      | Some a =>
-          let k := Nat.min ncols (length (a_cols a)) in
-          let f := fmt_of (c_fk c) in
-          (* the displayed numbers are the aggregated numbers under the formatter, in column order *)
-          (fix rows (j : nat) (rs : list (str * list Z * Z)) : bool :=
-             match rs with
-             | [] => true
-             | r :: rest =>
-                 Sl_eqb (words [] (nth (S j) lines []))
-                        (words [] (vis (c_col c) (wrap (c_col c) col_Yellow (r_name r)) ++ [SP] ++
-                                   join_sp (map f (firstn k (r_vals r))) ++ (if rt then f (r_sum r) else [])))
-                 && rows (S j) rest
-             end) 0%nat (firstn nrows (a_rows a))
-      end
+      match last_agg aggs with None => true | Some a => data_chk c ncols nrows rt a lines end
   | _, _ => false
   end.
 
